@@ -126,11 +126,11 @@ where
         true => {
             let iterator =
                 all_pairs_par_iter(graph, weighted, target, cutoff, first_only, with_paths);
-            iterator.collect::<Vec<(usize, Vec<(usize, ShortestPathInfo<usize>)>)>>()
+            iterator.collect::<Result<Vec<(usize, Vec<(usize, ShortestPathInfo<usize>)>)>, Error>>()?
         }
         false => {
             let iterator = all_pairs_iter(graph, weighted, target, cutoff, first_only, with_paths);
-            iterator.collect::<Vec<(usize, Vec<(usize, ShortestPathInfo<usize>)>)>>()
+            iterator.collect::<Result<Vec<(usize, Vec<(usize, ShortestPathInfo<usize>)>)>, Error>>()?
         }
     };
     let x = shortest_paths_vecs
@@ -151,7 +151,7 @@ fn all_pairs_iter<'a, T, A>(
     cutoff: Option<f64>,
     first_only: bool,
     with_paths: bool,
-) -> impl Iterator<Item = (usize, Vec<(usize, ShortestPathInfo<usize>)>)> + 'a
+) -> impl Iterator<Item = Result<(usize, Vec<(usize, ShortestPathInfo<usize>)>), Error>> + 'a
 where
     T: Hash + Eq + Clone + Ord + Display + Send + Sync,
     A: Clone + Send + Sync,
@@ -175,9 +175,8 @@ where
                     first_only,
                     with_paths,
                 ),
-            }
-            .unwrap();
-            (node_index, ss_index)
+            }?;
+            Ok((node_index, ss_index))
         });
     x
 }
@@ -191,7 +190,7 @@ pub(crate) fn all_pairs_par_iter<'a, T, A>(
     with_paths: bool,
 ) -> rayon::iter::Map<
     rayon::vec::IntoIter<usize>,
-    impl Fn(usize) -> (usize, Vec<(usize, ShortestPathInfo<usize>)>) + 'a,
+    impl Fn(usize) -> Result<(usize, Vec<(usize, ShortestPathInfo<usize>)>), Error> + 'a,
 >
 where
     T: Hash + Eq + Clone + Ord + Display + Send + Sync + 'a,
@@ -216,9 +215,8 @@ where
                     first_only,
                     with_paths,
                 ),
-            }
-            .unwrap();
-            (node_index, ss_index)
+            }?;
+            Ok((node_index, ss_index))
         });
     x
 }
